@@ -121,7 +121,19 @@ pub fn check_state(cx: &mut CaseCx, s: &pp::Server, path: &[u8], c: &Ctx, deep: 
   }
   if deep {
     // import into a fresh instance and into a follower that already holds the (unpunctured) key
-    for (who, mut target) in [("fresh instance", pp::Server::new(vec![9]).expect("server")), ("follower holding the earlier state", c.initial.clone())] {
+    // followers with a history of their own: the parent state (one puncture behind), and one that has
+    // punctured MORE than the exporter (all of the exporter's tags, their siblings and a few others)
+    let mut parent = c.initial.clone();
+    for &x in path.iter().take(path.len().saturating_sub(1)) {
+      let _ = parent.puncture(x);
+    }
+    let mut ahead = c.initial.clone();
+    for &x in path.iter() {
+      for y in [x, x ^ 0x80, x ^ 0x40, x ^ 0x01] {
+        let _ = ahead.puncture(y);
+      }
+    }
+    for (who, mut target) in [("fresh instance", pp::Server::new(vec![9]).expect("server")), ("follower holding the earlier state", c.initial.clone()), ("follower holding the previous state (one puncture behind)", parent), ("follower that had punctured more tags than the exporter", ahead)] {
       cx.eval();
       if let Err(e) = import_into(&mut target, &bytes) {
         cx.viol("C11/import-failed", format!("import into a {} failed: {}", who, e), d(json!(null)));
@@ -309,7 +321,7 @@ pub fn spec() -> PropSpec {
     checks: vec![
       Check {
         name: "subsets-bfs",
-        rule: "explicit-state BFS over real Servers (all 256 tags registered; and again with only 3 tags registered, so that punctured tags are mostly unregistered): transition = Server::puncture(tag) for a tag of the domain; digest = punctured set with merge check on the exported state; invariant in every state: (hook) no retained node is an ancestor-or-self of a punctured leaf and every unpunctured leaf is covered; (export) same on the independently parsed key-sync export, export == retained; no seed of any node on a punctured path occurs at any offset of the export; import into a fresh server and into a follower holding the earlier state: importer refuses exactly the punctured inputs, equal values, equal key material",
+        rule: "explicit-state BFS over real Servers (all 256 tags registered; and again with only 3 tags registered, so that punctured tags are mostly unregistered): transition = Server::puncture(tag) for a tag of the domain; digest = punctured set with merge check on the exported state; invariant in every state: (hook) no retained node is an ancestor-or-self of a punctured leaf and every unpunctured leaf is covered; (export) same on the independently parsed key-sync export, export == retained; no seed of any node on a punctured path occurs at any offset of the export; import into a fresh server, into followers holding the initial / the previous state, and into a follower that had punctured more than the exporter: importer refuses exactly the punctured inputs, equal values, equal key material",
         gen: |tier| {
           let mut v: Vec<Value> = if tier.thorough() { (0..8).map(|d| json!({"domain": d})).collect() } else { (4..8).map(|d| json!({"domain": d})).collect() };
           // the same exploration on servers that register only 3 tags: most punctured tags are unregistered
